@@ -10,10 +10,13 @@ import "fmt"
 // reads, so a data race exists iff a call WRITES a location that existed before
 // the call (and is reachable from the shared target / converters / options)
 // without holding a lock. The harness builds the shared objects from ordinary Go
-// functions, marks everything reachable from them, runs ONE operation and
-// asserts that no unguarded store hit a marked location. If no call writes
-// shared state, any number of concurrent calls are race-free under every
-// interleaving and each behaves exactly as it does alone.
+// functions, marks everything reachable from them, runs TWO operations (the
+// second chosen symbolically; natively they run as two goroutines) and asserts
+// the lock discipline over every access library code made to a marked location:
+// no store without a lock, and no location that is stored under a lock and also
+// read (or stored) under a lockset that shares no lock with it (Eraser's lockset
+// criterion; a passed sync.Once counts as a lock). If that holds, any number of
+// concurrent calls are race-free under every interleaving.
 //
 //	op    0 Call, 1 Convert, 2 Redefine, 3 Call twice (second application of every shared Arg),
 //	      4 Redefine then call the redefined function
@@ -84,31 +87,35 @@ func HarnessC12(op, once int) {
 	vnNote(fmt.Sprintf("op=%d once=%d shared options: %s", op, once, desc))
 	vnOnDivergence("", "")
 	vnEpoch(target, conv1, conv2, opts, defaults)
-	panicked := hGuardPlain(func() {
-		vnConcurrently(func() {
-			switch op {
-			case 0:
-				r := target.Call(opts...)
+	doOp := func(op int) {
+		switch op {
+		case 0:
+			r := target.Call(opts...)
+			_ = r.Err()
+		case 1:
+			_, _ = Convert(hType(hTP2), opts...)
+		case 2:
+			_, _ = target.Redefine(opts...)
+		case 3:
+			r := target.Call(opts...)
+			_ = r.Err()
+			r = target.Call(opts...)
+			_ = r.Err()
+			_, _ = Convert(hType(hTP1), opts...)
+		case 4:
+			nf, err := target.Redefine(opts...)
+			if err == nil && nf != nil {
+				r := nf.Call()
 				_ = r.Err()
-			case 1:
-				_, _ = Convert(hType(hTP2), opts...)
-			case 2:
-				_, _ = target.Redefine(opts...)
-			case 3:
-				r := target.Call(opts...)
-				_ = r.Err()
-				r = target.Call(opts...)
-				_ = r.Err()
-				_, _ = Convert(hType(hTP1), opts...)
-			case 4:
-				nf, err := target.Redefine(opts...)
-				if err == nil && nf != nil {
-					r := nf.Call()
-					_ = r.Err()
-					_ = nf.Input().Values()
-				}
+				_ = nf.Input().Values()
 			}
-		})
+		}
+	}
+	// the second goroutine performs a symbolically chosen operation (possibly the same one)
+	op2 := hPick("op2", 5)
+	vnNoteAppend(fmt.Sprintf(" | together with op=%d", op2))
+	panicked := hGuardPlain(func() {
+		vnTogether(func() { doOp(op) }, func() { doOp(op2) })
 	})
 	if panicked {
 		return // C06's subject
